@@ -46,6 +46,12 @@ Judge(ev) ==
                                \cup (IF ev.outcome = "hang" THEN {"Terminates"} ELSE {})
                                \cup (IF ev.postcrash THEN {"DeliveredTreeUsable"} ELSE {})}
          \cup {<<"C13", p>> : p \in (IF ev.outcome = "ok" /\ ~ev.idsok THEN {"ConsecutiveIdentifiers"} ELSE {})}
+         \* a well-formed document of the grammar (NexusDocs base documents) is accepted with all its trees
+         \cup {<<"C13", p>> : p \in (IF "expect" \in DOMAIN ev /\ ev.expect >= 0 /\ ev.outcome \in {"ok", "err"}
+                                     THEN (IF ev.entry = "multi"
+                                           THEN (IF ev.outcome = "ok" /\ ev.ntrees = ev.expect THEN {} ELSE {"WellFormedDocumentDeliversItsTrees"})
+                                           ELSE (IF (ev.outcome = "ok") = (ev.expect >= 1) THEN {} ELSE {"FirstTreeOfWellFormedDocument"}))
+                                     ELSE {})}
     [] ev.kind = "Split" ->
          IF ev.panic THEN {<<"C02", "NoCrash">>, <<"C13", "NoCrash">>}
          ELSE IF ev.hang THEN {<<"C02", "Terminates">>}
